@@ -90,6 +90,13 @@ def gen(rnd, tier):
             pc = paste_case(rnd, [("runes", [120])], payload, [("ctl", 13, False)], [len(payload) + cut if len(payload) + cut > 0 else 1, 256], "end-marker-split")
             if pc:
                 cases.append(pc)
+    # payloads that are exactly one character with a meaning of its own when typed (space, a letter, DEL, ESC, tab, enter),
+    # alone and between invalid bytes, in one read and cut after the start marker
+    for payload in ([32], [113], [127], [27], [9], [13], [0xFF, 32, 0xFE], [0xC3, 0xA9], [0]):
+        for sizes in ([256], [6, 256], [7, 1, 256]):
+            pc = paste_case(rnd, [("runes", [120])], payload, [("ctl", 13, False)], sizes, "one-character")
+            if pc:
+                cases.append(pc)
     # pastes read in one piece among neighbours (incl. two pastes in one read)
     for _ in range(120 if tier == "quick" else 2000):
         evs = D.gen_stream(rnd, rnd.choice([2, 3, 5]))
